@@ -82,6 +82,12 @@ func ParseOne(reader *bufio.Reader) (*ChangelogEntry, error) {
 		if line == "\n" {
 			continue
 		}
+		if strings.HasPrefix(line, "#") {
+			/* deb-changelog(5): comment lines are ignored; installed
+			 * changelogs end with "# Older entries have been removed
+			 * from this changelog." */
+			continue
+		}
 		if !strings.HasPrefix(line, " ") {
 			/* Great. Let's work with this. */
 			header = line
